@@ -97,6 +97,7 @@ type c03Universe struct {
 	quotas     []c03QuotaDef
 	pods       []c03PodDef
 	syncLeaves []int
+	late       []int // quotas that are NOT delivered at the start: an event delivers them later (pods that name them are parked in the default quota group until then)
 	flipLend   []int // quotas whose allow-lent-resource label the alphabet toggles: a meta change without a parent change, i.e. a reset of the whole quota tree
 	node1      c03Vec
 	node2      c03Vec
@@ -231,6 +232,29 @@ var c03Reset = &c03Universe{
 	node2:      c03V(4, 4),
 }
 
+// c03Late: the quota c03-l arrives late. Pods that name it are created - and may be admitted and reserved, against the
+// default quota group - before it exists; when it arrives, the plugin's periodic migration moves them into it, and from
+// then on they count against ITS limit like any other pod of the quota (seeds C01-3 / C19-2 / C03-6: a migrated
+// assigned pod whose used is never added lets later pods in past max).
+var c03Late = &c03Universe{
+	name: "late",
+	desc: "root->{c03-a, c03-l}; c03-l is delivered by an event, followed by the default-group migration",
+	quotas: []c03QuotaDef{
+		{name: "c03-a", parent: -1, lend: true, maxLevels: []c03Vec{c03V(4, 4)}, minLevels: []c03Vec{c03V(1, 1)}},
+		{name: "c03-l", parent: -1, lend: true, maxLevels: []c03Vec{c03V(4, 4), c03V(6, 6)}, maxStart: 0, minLevels: []c03Vec{c03V(1, 1)}},
+	},
+	pods: []c03PodDef{
+		{name: "l1", quota: 1, req: c03V(3, 1)},
+		{name: "l2", quota: 1, req: c03V(2, 1)},
+		{name: "l3", quota: 1, req: c03V(1, 1), nonPreemptible: true},
+		{name: "a1", quota: 0, req: c03V(2, 2)},
+	},
+	syncLeaves: []int{0, 1},
+	late:       []int{1},
+	node1:      c03V(8, 8),
+	node2:      c03V(4, 4),
+}
+
 // ---------------------------------------------------------------------------------------------------------
 // alphabet
 
@@ -246,6 +270,7 @@ const (
 	c03OpNodeDel
 	c03OpSync
 	c03OpFlipLend
+	c03OpQuotaArrives
 )
 
 type c03Op struct {
@@ -295,6 +320,9 @@ func c03BuildOps(cfg *c03Cfg) {
 		}
 	}
 	cfg.ops = append(cfg.ops, c03Op{c03OpNodeAdd, 0, "addNode(n2)"}, c03Op{c03OpNodeDel, 0, "removeNode(n2)"})
+	for _, q := range u.late {
+		cfg.ops = append(cfg.ops, c03Op{c03OpQuotaArrives, q, "quotaArrives+migration(" + u.quotas[q].name + ")"})
+	}
 	for _, q := range u.flipLend {
 		cfg.ops = append(cfg.ops, c03Op{c03OpFlipLend, q, "flipAllowLent(" + u.quotas[q].name + ")"})
 	}
@@ -330,6 +358,7 @@ type c03Sys struct {
 	minLvl  []int
 	lowered []bool // max of the quota was lowered at least once on this path
 	flipped []bool // allow-lent-resource currently differs from the universe's definition
+	absent  []bool // the quota has not been delivered yet (universe.late)
 	hasN2   bool
 
 	hist []uint8
@@ -417,13 +446,19 @@ func (s *c03Sys) build() {
 		s.podObjs[pi] = c03MakePod(u, u.pods[pi])
 	}
 	nq := len(u.quotas)
-	s.maxLvl, s.minLvl, s.lowered, s.flipped = make([]int, nq), make([]int, nq), make([]bool, nq), make([]bool, nq)
+	s.maxLvl, s.minLvl, s.lowered, s.flipped, s.absent = make([]int, nq), make([]int, nq), make([]bool, nq), make([]bool, nq), make([]bool, nq)
+	for _, q := range u.late {
+		s.absent[q] = true
+	}
 	s.quotaObjs = make([]*c03sched.ElasticQuota, nq)
 	// initial environment: node n1 exists, the quotas are delivered parents first
 	s.pl.OnNodeAdd(c03MakeNode("n1", u.node1))
 	for qi, d := range u.quotas {
 		s.maxLvl[qi], s.minLvl[qi] = d.maxStart, d.minStart
 		s.quotaObjs[qi] = c03MakeQuota(u, qi, s.max(qi), s.min(qi))
+		if s.absent[qi] {
+			continue
+		}
 		s.pl.OnQuotaAdd(s.quotaObjs[qi])
 	}
 	s.node2 = c03MakeNode("n2", u.node2)
@@ -517,19 +552,22 @@ func (s *c03Sys) applyReal(op int, check bool) (bool, []mc.Violation) {
 		s.pl.OnPodDelete(s.podObjs[o.arg])
 		s.podSt[o.arg] = c03Absent
 	case c03OpRaiseMax:
-		if s.maxLvl[o.arg] >= len(s.cfg.u.quotas[o.arg].maxLevels)-1 {
+		if s.absent[o.arg] || s.maxLvl[o.arg] >= len(s.cfg.u.quotas[o.arg].maxLevels)-1 {
 			return false, nil
 		}
 		s.maxLvl[o.arg]++
 		s.updateQuota(o.arg)
 	case c03OpLowerMax:
-		if s.maxLvl[o.arg] <= 0 {
+		if s.absent[o.arg] || s.maxLvl[o.arg] <= 0 {
 			return false, nil
 		}
 		s.maxLvl[o.arg]--
 		s.lowered[o.arg] = true
 		s.updateQuota(o.arg)
 	case c03OpToggleMin:
+		if s.absent[o.arg] {
+			return false, nil
+		}
 		s.minLvl[o.arg] = (s.minLvl[o.arg] + 1) % len(s.cfg.u.quotas[o.arg].minLevels)
 		s.updateQuota(o.arg)
 	case c03OpNodeAdd:
@@ -545,10 +583,29 @@ func (s *c03Sys) applyReal(op int, check bool) (bool, []mc.Violation) {
 		s.pl.OnNodeDelete(s.node2)
 		s.hasN2 = false
 	case c03OpSync:
+		if s.absent[o.arg] {
+			return false, nil
+		}
 		s.mgr.RefreshRuntime(s.cfg.u.quotas[o.arg].name)
 	case c03OpFlipLend:
 		s.flipped[o.arg] = !s.flipped[o.arg]
 		s.updateQuota(o.arg)
+	case c03OpQuotaArrives:
+		if !s.absent[o.arg] {
+			return false, nil
+		}
+		s.absent[o.arg] = false
+		s.quotaObjs[o.arg] = c03MakeQuota(s.cfg.u, o.arg, s.max(o.arg), s.min(o.arg))
+		s.pl.OnQuotaAdd(s.quotaObjs[o.arg])
+		s.pl.migrateDefaultQuotaGroupsPod() // the plugin's periodic migration of pods parked in the default group
+		// pods admitted before the quota existed were admitted against the default group: a quota that arrives already
+		// over its max is exempt from the used<=max invariant, like one whose max was lowered
+		ref, max := s.refUsed(o.arg, false), s.max(o.arg)
+		for k := 0; k < c03ND; k++ {
+			if ref[k] > max[k] {
+				s.lowered[o.arg] = true
+			}
+		}
 	}
 	s.hist = append(s.hist, uint8(op))
 	return true, viol
@@ -826,6 +883,14 @@ func (s *c03Sys) expectation(pi int) c03Expectation {
 func (s *c03Sys) vkey(clause string) string { return "C03|" + s.cfg.part + "|" + clause }
 
 func (s *c03Sys) attempt(pi int, check bool) []mc.Violation {
+	if s.absent[s.cfg.u.pods[pi].quota] {
+		// the pod's quota does not exist yet: the attempt runs against the default quota group, whose limit is not the
+		// property's business; executed (the pod may end up reserved), not judged
+		if check {
+			s.cfg.res.Count("attempts_before_the_quota_exists(not judged)", 1)
+		}
+		check = false
+	}
 	var e c03Expectation
 	if check {
 		e = s.expectation(pi) // from the ledger, BEFORE the code decides
@@ -921,6 +986,9 @@ func (s *c03Sys) Invariants() []mc.Violation {
 	res := s.cfg.res
 	u := s.cfg.u
 	for q := range u.quotas {
+		if s.absent[q] {
+			continue
+		}
 		sum, ok := s.mgr.GetQuotaSummary(u.quotas[q].name, false)
 		if !ok {
 			viol = append(viol, mc.Violation{Key: s.vkey("quota-vanished"), What: u.quotas[q].name + " has no summary"})
@@ -1029,7 +1097,7 @@ func (s *c03Sys) Key() string {
 	s.cfg.memo.put(s.hist, s.ledger())
 	var sb strings.Builder
 	// harness side: everything the oracle's future verdicts depend on
-	fmt.Fprintf(&sb, "pods%v max%v min%v lowered%v flipped%v n2:%v|", s.podSt, s.maxLvl, s.minLvl, s.lowered, s.flipped, s.hasN2)
+	fmt.Fprintf(&sb, "pods%v max%v min%v lowered%v flipped%v absent%v n2:%v|", s.podSt, s.maxLvl, s.minLvl, s.lowered, s.flipped, s.absent, s.hasN2)
 	sb.WriteString(c03StaleFlags(s.mgr))
 	sb.WriteString("|")
 	sb.WriteString(c03Dumper.Dump(s.mgr))
@@ -1110,6 +1178,9 @@ func c03Plan(env *mc.Env) []*c03Cfg {
 	}
 	for _, cp := range []bool{false, true} {
 		add(c03NewCfg("reset", c03Reset, true, cp, true, 3, d0+1, 1), d1+1)
+	}
+	for _, rt := range []bool{false, true} {
+		add(c03NewCfg("late", c03Late, rt, false, false, 4, d0+1, 1), d1+1)
 	}
 	for _, cp := range []bool{false, true} {
 		add(c03NewCfg("hist", c03Tree, false, cp, false, env.Pick(6, 7), d0, 5), d1)
